@@ -641,6 +641,14 @@ func (p *Parser) parseInfixExpression(left ast.Expression) ast.Expression {
 
 // parsePostfixExpression parses a postfix-based expression.
 func (p *Parser) parsePostfixExpression() ast.Expression {
+
+	// The operator applies to the variable which precedes it.
+	if p.prevToken.Type != token.IDENT {
+		msg := fmt.Sprintf("the %s operator must follow an identifier, around %s", p.curToken.Literal, p.curToken.Position())
+		p.errors = append(p.errors, msg)
+		return nil
+	}
+
 	expression := &ast.PostfixExpression{
 		Token:    p.prevToken,
 		Operator: p.curToken.Literal,
